@@ -374,6 +374,9 @@ matrix * Matrix_NewFromSequence(PyObject *x, int id)
     number n;
     if (convert_num[id](&n, item, 1, 0)) {
       Py_DECREF(L); Py_DECREF(seq);
+      /* keep an OverflowError raised by the conversion */
+      if (PyErr_Occurred() && 
+          PyErr_ExceptionMatches(PyExc_OverflowError)) return NULL;
       PY_ERR(PyExc_TypeError, err_mtx_list2matrix[id]);
     }
     write_num[id](L->buffer, i, &n, 0);
@@ -489,8 +492,10 @@ matrix * dense_concat(PyObject *L, int id_arg)
 
         } else {
 
-          convert_num[id]((unsigned char*)MAT_BUF(A) + (mk+(nk+jk)*m)*E_SIZE[id],
-              Lij, 1, 0);
+          if (convert_num[id]((unsigned char*)MAT_BUF(A) + 
+              (mk+(nk+jk)*m)*E_SIZE[id], Lij, 1, 0)) {
+            Py_DECREF(A); return NULL;
+          }
         }
       }
       mk += blk_nrows;
@@ -909,7 +914,10 @@ matrix_ass_subscr_impl(matrix* self, PyObject* args, PyObject* val)
     }
     number n;
     if (PY_NUMBER(val) || (Matrix_Check(val) && MAT_LGT(val)==1)) {
-      convert_num[id](&n, val, (Matrix_Check(val) ? 0 : 1), 0);
+      if (convert_num[id](&n, val, (Matrix_Check(val) ? 0 : 1), 0)) {
+        if (decref_val) { Py_DECREF(val); }
+        free_lists_exit(args,(PyObject *)NULL,Il,(PyObject *)NULL,-1);
+      }
 
       for (i=0; i<MAT_LGT(Il); i++)
         write_num[id](self->buffer,CWRAP(MAT_BUFI(Il)[i],MAT_LGT(self)),&n,0);
@@ -1534,7 +1542,8 @@ matrix_add_generic(PyObject *self, PyObject *other, int inplace)
     {
     number n;
     if (!inplace) {
-      convert_num[id](&n,self,(Matrix_Check(self) ? 0 : 1),0);
+      if (convert_num[id](&n,self,(Matrix_Check(self) ? 0 : 1),0))
+        return NULL;
 
       matrix *ret = Matrix_NewFromMatrix((matrix *)other, id);
       if (!ret) return NULL;
@@ -1558,7 +1567,8 @@ matrix_add_generic(PyObject *self, PyObject *other, int inplace)
       return (PyObject *)ret;
     }
     else {
-      convert_num[id](&n,other,(Matrix_Check(other) ? 0 : 1),0);
+      if (convert_num[id](&n,other,(Matrix_Check(other) ? 0 : 1),0))
+        return NULL;
 
       switch (id) {
         case INT:     MAT_BUFI(self)[0] += n.i; break;
@@ -1578,7 +1588,8 @@ matrix_add_generic(PyObject *self, PyObject *other, int inplace)
       MAT_LGT(other)==1))
     {
     number n;
-    convert_num[id](&n,other,(Matrix_Check(other) ? 0 : 1),0);
+    if (convert_num[id](&n,other,(Matrix_Check(other) ? 0 : 1),0))
+      return NULL;
 
     if (!inplace) {
       matrix *ret = Matrix_NewFromMatrix((matrix *)self, id);
@@ -1688,7 +1699,8 @@ matrix_sub_generic(PyObject *self, PyObject *other, int inplace)
 
     number n;
     if (!inplace) {
-      convert_num[id](&n,self,(Matrix_Check(self) ? 0 : 1),0);
+      if (convert_num[id](&n,self,(Matrix_Check(self) ? 0 : 1),0))
+        return NULL;
 
       matrix *ret = Matrix_NewFromMatrix((matrix *)other, id);
       if (!ret) return NULL;
@@ -1712,7 +1724,8 @@ matrix_sub_generic(PyObject *self, PyObject *other, int inplace)
       return (PyObject *)ret;
     }
     else {
-      convert_num[id](&n,other,(Matrix_Check(other) ? 0 : 1),0);
+      if (convert_num[id](&n,other,(Matrix_Check(other) ? 0 : 1),0))
+        return NULL;
 
       switch (id) {
         case INT:     MAT_BUFI(self)[0] -= n.i; break;
@@ -1732,7 +1745,8 @@ matrix_sub_generic(PyObject *self, PyObject *other, int inplace)
   else if (PY_NUMBER(other) || (Matrix_Check(other) &&  MAT_LGT(other)==1))
     {
     number n;
-    convert_num[id](&n,other,(Matrix_Check(other) ? 0 : 1),0);
+    if (convert_num[id](&n,other,(Matrix_Check(other) ? 0 : 1),0))
+      return NULL;
 
     if (!inplace) {
       matrix *ret = Matrix_NewFromMatrix((matrix *)self, id);
@@ -1842,7 +1856,8 @@ matrix_mul_generic(PyObject *self, PyObject *other, int inplace)
     {
     number n;
     if (!inplace) {
-      convert_num[id](&n,self,(Matrix_Check(self) ? 0 : 1),0);
+      if (convert_num[id](&n,self,(Matrix_Check(self) ? 0 : 1),0))
+        return NULL;
 
       matrix *ret = Matrix_NewFromMatrix((matrix *)other, id);
       if (!ret) return NULL;
@@ -1852,7 +1867,8 @@ matrix_mul_generic(PyObject *self, PyObject *other, int inplace)
       return (PyObject *)ret;
     }
     else {
-      convert_num[id](&n,other,(Matrix_Check(other) ? 0 : 1),0);
+      if (convert_num[id](&n,other,(Matrix_Check(other) ? 0 : 1),0))
+        return NULL;
 
       int int1 = 1;
       scal[id](&int1, &n, MAT_BUF(self), &int1);
@@ -1866,7 +1882,8 @@ matrix_mul_generic(PyObject *self, PyObject *other, int inplace)
       MAT_LGT(other)==1))
     {
     number n;
-    convert_num[id](&n,other,(Matrix_Check(other) ? 0 : 1),0);
+    if (convert_num[id](&n,other,(Matrix_Check(other) ? 0 : 1),0))
+      return NULL;
 
     if (!inplace) {
       matrix *ret = Matrix_NewFromMatrix((matrix *)self, id);
@@ -1947,7 +1964,8 @@ matrix_div_generic(PyObject *self, PyObject *other, int inplace)
 #endif
 
   number n;
-  convert_num[id](&n,other,(Matrix_Check(other) ? 0 : 1),0);
+  if (convert_num[id](&n,other,(Matrix_Check(other) ? 0 : 1),0))
+    return NULL;
 
   if (!inplace) {
     matrix *ret = Matrix_NewFromMatrix((matrix *)self, id);
@@ -1993,7 +2011,8 @@ matrix_rem_generic(PyObject *self, PyObject *other, int inplace)
   if (id == COMPLEX) PY_ERR(PyExc_NotImplementedError, "complex modulo");
 
   number n;
-  convert_num[id](&n,other,(Matrix_Check(other) ? 0 : 1),0);
+  if (convert_num[id](&n,other,(Matrix_Check(other) ? 0 : 1),0))
+    return NULL;
 
   if (!inplace) {
     matrix *ret = Matrix_NewFromMatrix((matrix *)self, id);
@@ -2060,7 +2079,7 @@ static PyObject * matrix_pow(PyObject *self, PyObject *other)
 
   number val;
   int id = MAX(DOUBLE, MAX(MAT_ID(self), get_id(other, 1)));
-  convert_num[id](&val, other, 1, 0);
+  if (convert_num[id](&val, other, 1, 0)) return NULL;
   matrix *Y = Matrix_NewFromMatrix((matrix *)self, id);
   if (!Y) return NULL;
 
